@@ -58,6 +58,64 @@ def check_serve_health(prop, rec, stage_i):
             raise Violation(f"{prop}/error-report", f"stage {stage_i}: {desc} {pages}")
 
 
+def _optional_failed_for_recorded_dynamic_input(records, srec):
+    """Every step that failed in the last incremental build is optional, was not executed by the
+    scratch build, and one of its outputs was a recorded dynamic input of an attached step when
+    the last build started (tables at the end of the previous build)."""
+    final = records[-1]
+    if len(records) < 2:
+        return False
+    prev = records[-2].result.tables
+    nodes = {n["i"]: n for n in prev["node"]}
+    dynamic = {d["i"] for d in prev["dynamic_dep"]}
+    recorded = set()
+    for d in prev["dependency"]:
+        if d["i"] in dynamic and nodes[d["source"]]["kind"] == "file" \
+                and not nodes[d["sink"]]["detached"]:
+            recorded.add(nodes[d["source"]]["label"])
+    tables = final.result.tables
+    tn = {n["i"]: n for n in tables["node"]}
+    failed = [x["node"] for x in tables["step"] if x["state"] == 24 and not tn[x["node"]]["detached"]]
+    if not failed:
+        return False
+    for i in failed:
+        step = next(x for x in tables["step"] if x["node"] == i)
+        if step["need"] != 31 or tn[i]["label"] in srec.result.commands:
+            return False
+        outs = {tn[d["sink"]]["label"] for d in tables["dependency"] if d["source"] == i}
+        if not outs & recorded:
+            return False
+    return True
+
+
+def _optional_failed_for_blocked_consumer(tables):
+    nodes = {n["i"]: n for n in tables["node"]}
+    steps = {x["node"]: x for x in tables["step"]}
+    files = {f["node"]: f for f in tables["file"]}
+    dynamic = {d["i"] for d in tables["dynamic_dep"]}
+    failed = [i for i, x in steps.items() if x["state"] == 24 and not nodes[i]["detached"]]
+    if not failed:
+        return False
+    for i in failed:
+        if steps[i]["need"] != 31:
+            return False
+        outs = {d["sink"] for d in tables["dependency"] if d["source"] == i}
+        ok = False
+        for d in tables["dependency"]:
+            if d["source"] in outs and d["i"] in dynamic and d["sink"] in steps:
+                c = d["sink"]
+                if nodes[c]["detached"] or steps[c]["state"] != 21:
+                    continue
+                for e in tables["dependency"]:
+                    if e["sink"] == c and e["i"] not in dynamic and e["source"] in files:
+                        f, fn = files[e["source"]], nodes[e["source"]]
+                        if fn["detached"] or f["state"] not in (14, 16):
+                            ok = True
+        if not ok:
+            return False
+    return True
+
+
 def _failed_after_redeclaration(rec):
     """A command that was reported FAIL whose step is attached and not FAILED in the end, and
     that was defined (again) by its creator after it had been started in this build."""
@@ -184,6 +242,11 @@ async def check_history(case, rec, ctx):
         check_serve_health(PROPERTY, srec, "scratch")
         rc_inc = H.returncode_class(final.result.returncode)
         rc_scr = H.returncode_class(srec.result.returncode)
+        if any(cls == "CyclicError" for _l, _o, cls, _m in srec.result.rejections):
+            # The final sources are not a valid project (the edits closed a dependency cycle):
+            # which plan trips over it depends on the order of definitions; nothing to compare.
+            rec.event("skipped:final-spec-cyclic")
+            return
         if _bits(rc_inc) != _bits(rc_scr):
             sig = f"{PROPERTY}/returncode-differs-from-scratch"
             stale = _stale_claim_rejections(final)
@@ -195,6 +258,14 @@ async def check_history(case, rec, ctx):
             elif _blocked_by_stale_dynamic_input(final) and "PENDING" in _bits(rc_inc) \
                     and "PENDING" not in _bits(rc_scr):
                 sig = f"{PROPERTY}/pending-step-blocked-by-dynamic-input-it-no-longer-amends"
+            elif "FAILED" in _bits(rc_inc) and "FAILED" not in _bits(rc_scr) \
+                    and _optional_failed_for_recorded_dynamic_input(records, srec):
+                # Root-cause refinement (recorded finding): an optional step was executed (and
+                # failed) only because a consumer still carries the dynamic input it announced
+                # in an earlier build, although it can no longer run (an initial input lost its
+                # producer) or its edited script no longer announces that input; from scratch
+                # the input is never announced and the optional step is not needed.
+                sig = f"{PROPERTY}/optional-step-run-for-recorded-dynamic-input"
             elif "FAILED" in _bits(rc_scr) and "FAILED" not in _bits(rc_inc) \
                     and "DRAINED" in rc_inc and _failed_after_redeclaration(final):
                 # Root-cause refinement (recorded finding): the step was dispatched under its
